@@ -17,8 +17,25 @@ from .snakes import compute_snakes_multilevel, compute_diff_from_snakes
 __all__ = ["diff"]
 
 
+def json_equal(x, y):
+    """Compare two json-like values for equality.
+
+    Unlike ==, this tells apart values of different JSON types that
+    Python considers equal (True == 1 == 1.0), also when nested.
+    """
+    if isinstance(x, dict) and isinstance(y, dict):
+        return len(x) == len(y) and all(
+            k in y and json_equal(v, y[k]) for k, v in x.items())
+    if isinstance(x, (list, tuple)) and isinstance(y, (list, tuple)):
+        return len(x) == len(y) and all(
+            json_equal(xv, yv) for xv, yv in zip(x, y))
+    if isinstance(x, (bool, int, float)) or isinstance(y, (bool, int, float)):
+        return type(x) is type(y) and x == y
+    return x == y
+
+
 def default_predicates():
-    return defaultdict(lambda: (operator.__eq__,))
+    return defaultdict(lambda: (json_equal,))
 
 
 def default_differs():
@@ -249,7 +266,7 @@ def diff_dicts(a, b, path="", config=None):
                 raise RuntimeError(
                     "Found predicate(s) for path {} pointing to dict entry.".format(
                         path or '/'))
-            if avalue != bvalue:
+            if not json_equal(avalue, bvalue):
                 di.replace(key, bvalue)
 
     for key in sorted(bkeys - akeys):
